@@ -891,3 +891,10 @@ V("twin: mirror with the roles of I and J exchanged throughout", "C10", POINT,
 V("skew lines of 3-space are joined without an error", "C02", POINT, "            elif intersect_lines or n == 4:", "            elif intersect_lines and n == 4:", "E19.join", "_join_meet_duality")
 V("single dependent arguments are not reported", "C02", POINT, "        if result.free_indices == 0 and is_zero:", "        if result.free_indices > 0 and is_zero:", "E19.join", "_join_meet_duality")
 V("twin: the dependence test written with the free indices first", "C02", POINT, "        if result.free_indices == 0 and is_zero:", "        if is_zero and result.free_indices == 0:", "silent")
+
+
+# ------------------------------------------------------------------------------------------------ the action as values (E19.act)
+TRANS = "geometer/transformation.py"
+V("inverse() returns the transposed inverse (C07)", "C07", TRANS, "        return type(self)(inv(self.array), copy=False)", "        return type(self)(np.swapaxes(inv(self.array), -1, -2), copy=False)", "E19.act", "Tensor.__apply__", quick=True)
+V("inverse() returns the transposed inverse (C06)", "C06", TRANS, "        return type(self)(inv(self.array), copy=False)", "        return type(self)(np.swapaxes(inv(self.array), -1, -2), copy=False)", "E19.act", "Tensor.__apply__", quick=True)
+V("twin: inverse() through a local (C07)", "C07", TRANS, "        return type(self)(inv(self.array), copy=False)", "        inverted = inv(self.array)\n        return type(self)(inverted, copy=False)", "silent")
